@@ -23,13 +23,19 @@ def _work(job):
             feat = g.feat
             fname = "f"
         else:
-            module, fname, feat = MAKERS[maker](rng, opts)
+            made = MAKERS[maker](rng, opts)
+            if isinstance(made, dict):          # a host history (C15)
+                rec = proglib.eval_history(made["module"], made["nvms"], made["ops"], want=want)
+                rec.update(features=made["feat"], seed=seed, index=i, maker=maker, opts=opts)
+                return rec
+            module, fname, feat = made
         inputs = gen.gen_inputs(rng, module, fname, ninputs)
         rec = proglib.eval_program(module, fname, inputs, want=want)
         rec["features"] = feat
         rec["seed"] = seed
         rec["index"] = i
         rec["maker"] = maker
+        rec["opts"] = opts
         return rec
     except common.Infra as e:
         return {"infra": str(e), "seed": seed, "index": i}
